@@ -668,6 +668,10 @@ def http_cases(rng, nflips=16):
     yield "http.req.exact", "valid-resp", {"msg": resp, "hname": hn(), "qname": b""}
     for kind, m in mut_text(rng, resp, 6):
         yield "http.req.exact", kind + "-resp", {"msg": m, "hname": hn(), "qname": b""}
+    # status lines whose status code is directly followed by the line end (no SP, no reason phrase), alone and with headers
+    for sl in (b"HTTP/1.1 200", b"HTTP/1.0 404", b"HTTP/1.1 200 ", b"HTTP/1.1 20", b"HTTP/1.1 2000"):
+        for tail in (b"\r\n", b"\r\n\r\n", b"\r\nServer: x\r\n\r\n", b"\r", b"\n", b"\r\r\n", b"\rX"):
+            yield "http.req.exact", "status-code-then-eol-resp", {"msg": sl + tail, "hname": hn(), "qname": b""}
     # header removal
     for nm in set(names + [b"host", b"x-a"]):
         yield "http.hdr_remove", "valid", {"msg": hdr, "hname": nm}
